@@ -232,6 +232,38 @@ func buildVal(n *sx) (any, error) {
 		return make(chan int), nil
 	case "func":
 		return func() {}, nil
+	case "cyc":
+		// a value that contains itself through a pointer
+		type cyc struct {
+			Name string
+			Next *cyc
+		}
+		c := &cyc{Name: "a"}
+		c.Next = c
+		return c, nil
+	case "cycmap":
+		m := map[string]any{"name": "m"}
+		m["self"] = m
+		return m, nil
+	case "cycslice":
+		sl := make([]any, 2)
+		sl[0] = int64(1)
+		sl[1] = sl
+		return sl, nil
+	case "cyc2":
+		// a cycle of length two through a map and a pointer
+		type node struct {
+			Name string
+			Kids map[string]any
+		}
+		n := &node{Name: "n", Kids: map[string]any{}}
+		n.Kids["up"] = n
+		return n, nil
+	case "shared":
+		// the same pointer used twice, no cycle: perfectly good data
+		v := int64(5)
+		p := &v
+		return []any{p, p, map[string]any{"p": p}}, nil
 	case "nilchan":
 		var c chan int
 		return c, nil
